@@ -59,6 +59,7 @@ class Contract:
         self.requires_ = []
         self.ensures_ = []
         self.exsures_ = {}  # cls -> [Clause]
+        self.assumed_ = []
         self.result_kind = None
         self.inline = inline
         self.loops = {}
@@ -93,6 +94,12 @@ class Contract:
         lst = self.exsures_.setdefault(cls, [])
         if name is not None:
             lst.append(Clause(name, fn, props or _props_of(name), internal))
+        return self
+
+    def assume_for_callers(self, name, fn):
+        """A fact about the callee's result that callers may use but that is NOT proved on the
+        body (an axiom about the environment); listed among the assumptions of every evidence file."""
+        self.assumed_.append(Clause(name, fn, ()))
         return self
 
     def returns(self, kind):
@@ -348,7 +355,10 @@ def apply_contract(ex, contract, fr, args, kwargs, st, node, bound_self=None):
         s2 = base.fork()
         if contract.effects:
             contract.effects(a, s2, cls)
-        excv = ExcVal(cls, (V.sstr(fresh_name("excmsg")),))
+        if issubclass(cls, SystemExit):
+            excv = ExcVal(cls, (V.sint(fresh_name("exitcode")),))
+        else:
+            excv = ExcVal(cls, (V.sstr(fresh_name("excmsg")),))
         cx = Ctx(s2, log0)
         if contract.assume_at_call_sites:
             for cl in contract.exsures_[cls]:
@@ -360,7 +370,10 @@ def apply_contract(ex, contract, fr, args, kwargs, st, node, bound_self=None):
     if contract.effects:
         contract.effects(a, s1, "return")
     assumptions = []
-    res = contract.result_kind.fresh(fresh_name(contract.qualname.split(".")[-1]), assumptions) if contract.result_kind else None
+    if getattr(contract, "result_builder", None) is not None:
+        res = contract.result_builder(a, fresh_name(contract.qualname.split(".")[-1]), assumptions)
+    else:
+        res = contract.result_kind.fresh(fresh_name(contract.qualname.split(".")[-1]), assumptions) if contract.result_kind else None
     for x in assumptions:
         s1.assume(x)
     cx = Ctx(s1, log0)
@@ -368,6 +381,8 @@ def apply_contract(ex, contract, fr, args, kwargs, st, node, bound_self=None):
         for cl in contract.ensures_:
             if not cl.internal:
                 s1.assume(cl.fn(a, res, cx))
+    for cl in contract.assumed_:
+        s1.assume(cl.fn(a, res, cx))
     # ghost record of what the callee returned (clauses of the caller may refer to it)
     s1.emit("CallResult", contract.qualname, res, a)
     if ex.feasible is None or ex.feasible(s1.pc):
